@@ -94,7 +94,7 @@ MAX_RESTARTS = 12
 
 
 def _run_shard(args):
-    mode, binp, cases, wd, idx, timeout = args
+    mode, binp, cases, wd, idx, timeout, max_restarts = args
     inp = os.path.join(wd, "in-%d.json" % idx)
     outp = os.path.join(wd, "raw-%d.ndjson" % idx)
     with open(inp, "w") as f:
@@ -137,7 +137,7 @@ def _run_shard(args):
         if restarts > len(cases) + 5:
             raise Infra("harness keeps dying")
         frm = max(last, frm) + 1
-        if restarts >= MAX_RESTARTS and frm < len(cases):
+        if restarts >= max_restarts and frm < len(cases):
             # a tree on which case after case hangs or dies: enough has been seen, the rest of the shard is not run
             died.append({"ev": "skipped", "c": cases[frm]["id"], "from": frm, "n": len(cases) - frm})
             break
@@ -153,7 +153,7 @@ def _run_shard(args):
     return evs
 
 
-def run_harness(mode, cases, wd, nproc=None, timeout=900):
+def run_harness(mode, cases, wd, nproc=None, timeout=900, max_restarts=MAX_RESTARTS):
     """Run cases (list of dicts with unique 'id') over nproc harness processes; return events per case id."""
     binp = build_harness()
     os.makedirs(wd, exist_ok=True)
@@ -164,7 +164,7 @@ def run_harness(mode, cases, wd, nproc=None, timeout=900):
     for i, c in enumerate(cases):
         shards[i % nproc].append(c)
     with ThreadPoolExecutor(max_workers=nproc) as ex:
-        res = list(ex.map(_run_shard, [(mode, binp, sh, wd, i, timeout) for i, sh in enumerate(shards) if sh]))
+        res = list(ex.map(_run_shard, [(mode, binp, sh, wd, i, timeout, max_restarts) for i, sh in enumerate(shards) if sh]))
     bycase = {}
     for evs in res:
         for ev in evs:
